@@ -22,13 +22,16 @@ set after the start string has been yielded or is greater than everything yielde
 so the output is always an initial segment of the sorted filter of the window set, and is
 the whole sorted filter once the generator is exhausted.  The loop never raises inside the
 domain.  Consequently `successor`/`predecessor` return the least/greatest such word, or `None`
-when there is none.  Not proved: that the generator *is* exhausted after finitely many
-iterations when a max length is given or the language is finite (`C14_termination_full`).
+when there is none.  Termination (`C14_termination`): when a max length is given or the
+language is finite, the generator is exhausted after finitely many iterations (a potential
+that every iteration lowers), hence its complete output *is* the sorted filter
+(`C14_successors_total`, `C14_predecessors_total`).
 
 Domain (DESIGN.md §7 C14): start strings over the alphabet (a foreign symbol makes the real
 code raise `KeyError`: finding F13), a non-empty alphabet (`IndexError`: F14), an injective key.
 -/
 import AutomataVerif.Proofs.Succ
+import AutomataVerif.Proofs.SuccTerm
 import AutomataVerif.Props.C13
 
 namespace AV.Props.C14
@@ -96,12 +99,15 @@ theorem C14_successors (d : AV.DFA σ α) (key : α → Int) (input : Option (Li
         ((d.successors key input o fuel).2 = .outOfFuel ∧
           ∀ y ∈ (d.successors key input o fuel).1, lexLt key y w)) := by
   have wf := (DFA.validate_eq_ok d).mp h.valid
-  obtain ⟨c, s0, cok, inv, hrun, hchars, hcand, hsy⟩ :=
-    successorsCore_setup wf h.dict h.symsNodup h.symsNe h.keyInj input h.inputOver o fuel
+  obtain ⟨first, last, s0, _, _, cok, inv, hrun, hchars, hcand, hsy⟩ :=
+    successorsCore_setup wf h.dict h.symsNodup h.symsNe h.keyInj input h.inputOver o
+  have hcf : (setupCfg d key o first last).first = first := rfl
+  rw [← hcf] at hcand
+  generalize setupCfg d key o first last = c at cok hrun hcand
   have hsucc : d.successors key input o fuel = succLoop d o c fuel s0 := by
     unfold DFA.successors DFA.finiteGuard
     rw [ho]
-    exact hrun
+    exact hrun fuel
   rw [hsucc]
   have hκ : dirKey key o.reverse = key := by rw [ho]; rfl
   rw [hκ] at cok
@@ -232,13 +238,16 @@ theorem C14_predecessors (d : AV.DFA σ α) (key : α → Int) (input : Option (
   obtain ⟨b, hb, hiff⟩ := C13_isfinite d h.valid h.dict
   have : b = true := hiff.mpr hfinite
   subst this
-  obtain ⟨c, s0, cok, inv, hrun, hchars, hcand, hsy⟩ :=
-    successorsCore_setup wf h.dict h.symsNodup h.symsNe h.keyInj input h.inputOver o fuel
+  obtain ⟨first, last, s0, _, _, cok, inv, hrun, hchars, hcand, hsy⟩ :=
+    successorsCore_setup wf h.dict h.symsNodup h.symsNe h.keyInj input h.inputOver o
+  have hcf : (setupCfg d key o first last).first = first := rfl
+  rw [← hcf] at hcand
+  generalize setupCfg d key o first last = c at cok hrun hcand
   have hsucc : d.successors key input o fuel = succLoop d o c fuel s0 := by
     unfold DFA.successors DFA.finiteGuard
     rw [ho]
     simp only [hb]
-    exact hrun
+    exact hrun fuel
   rw [hsucc]
   have hκ : dirKey key o.reverse = fun a => - key a := by rw [ho]; rfl
   rw [hκ] at cok
@@ -350,17 +359,160 @@ theorem C14_predecessor (d : AV.DFA σ α) (key : α → Int) (w0 : List α)
       | outOfFuel => trivial
       | raised e => rcases h1 with h1 | h1 <;> cases h1
 
-/-! ## what is not proved -/
+/-! ## termination -/
 
-/-- The full statement additionally needs termination: when a max length is given, or the
-language is finite, the generator is exhausted after finitely many loop iterations (so that,
-with the theorems above, its complete output *is* the sorted filter of the window set).
-Not proved here; the correspondence run observes exhaustion on every sampled in-domain case. -/
-def C14_termination_full : Prop :=
-  ∀ (σ α : Type) [DecidableEq σ] [DecidableEq α] (d : AV.DFA σ α) (key : α → Int)
-    (input : Option (List α)) (_ : Dom d key input) (o : SuccOpts),
-    (o.maxLen.isSome = true ∨ (Lang d).Finite) → (o.reverse = true → (Lang d).Finite) →
-    ∃ fuel, (d.successors key input o fuel).2 = .finished
+/-- A descent below `p·a` implies an accepted word of length `> |p|`. -/
+theorem viable_gives_word {d : AV.DFA σ α} (hd : d.IsDict) {S : List α} {κ : α → Int}
+    {c : SuccCfg σ α} (cok : CfgOK d κ S c) {top : Option σ} {rest : List (Option σ)}
+    {chars : List α} (hst : StackOK d (top :: rest) chars) {a : α}
+    (hv : viable c (d.step? top a) = true) :
+    ∃ w : List α, w ∈ Lang d ∧ chars.length < w.length := by
+  cases hs : d.step? top a with
+  | none => rw [hs] at hv; simp [viable] at hv
+  | some t =>
+    rw [hs] at hv
+    simp only [viable, decide_eq_true_eq] at hv
+    obtain ⟨f, hf, n, hp⟩ := (cok.coacc t).mp hv
+    obtain ⟨x, hxl, hxr⟩ := (pathLen_iff_run hd).mp hp
+    refine ⟨chars.reverse ++ [a] ++ x, ?_, by simp⟩
+    show d.accepts _ = true
+    unfold DFA.accepts
+    rw [DFA.run_append, DFA.run_append, DFA.run_cons, DFA.run_nil, ← hst.top, hs, hxr]
+    simp [DFA.isFinal, hf]
+
+/-- **Termination**: when a max length is given, or the language is finite (which the
+predecessor direction requires anyway), the generator is exhausted after finitely many loop
+iterations.  Together with `C14_successors_exhausted` / `C14_predecessors_exhausted`: its
+complete output is the sorted filter of the window set. -/
+theorem C14_termination (d : AV.DFA σ α) (key : α → Int) (input : Option (List α))
+    (h : Dom d key input) (o : SuccOpts)
+    (hbound : o.maxLen.isSome = true ∨ (Lang d).Finite)
+    (hrev : o.reverse = true → (Lang d).Finite) :
+    ∃ fuel, (d.successors key input o fuel).2 = .finished := by
+  have wf := (DFA.validate_eq_ok d).mp h.valid
+  obtain ⟨first, last, s0, hf, hl, cok, inv, hrun, _, _, _⟩ :=
+    successorsCore_setup wf h.dict h.symsNodup h.symsNe h.keyInj input h.inputOver o
+  have hSnd : (d.sortedSymbols key o.reverse).Nodup :=
+    (sortedSymbols_perm d key o.reverse).nodup_iff.mpr h.symsNodup
+  have cpos : CfgPos (d.sortedSymbols key o.reverse) (setupCfg d key o first last) :=
+    cfgPos_of hSnd hf hl
+  -- the run of `successors` is the loop
+  have hsucc : ∀ fuel, d.successors key input o fuel =
+      succLoop d o (setupCfg d key o first last) fuel s0 := by
+    intro fuel
+    unfold DFA.successors DFA.finiteGuard
+    by_cases hr : o.reverse = true
+    · obtain ⟨b, hb, hiff⟩ := C13_isfinite d h.valid h.dict
+      have : b = true := hiff.mpr (hrev hr)
+      subst this
+      rw [hr]
+      simp only [hb]
+      exact hrun fuel
+    · have hr' : o.reverse = false := by
+        cases hx : o.reverse with
+        | true => exact absurd hx hr
+        | false => rfl
+      rw [hr']
+      exact hrun fuel
+  -- a depth bound
+  obtain ⟨D, hD⟩ : ∃ D, ∀ (top : Option σ) (rest : List (Option σ)) (chars : List α) (a : α),
+      StackOK d (top :: rest) chars →
+      (viable (setupCfg d key o first last) (d.step? top a) && belowMax o chars.length) = true →
+      chars.length < D := by
+    cases hm : o.maxLen with
+    | some m =>
+      refine ⟨m, ?_⟩
+      intro top rest chars a _ hb
+      simp only [Bool.and_eq_true, belowMax, hm, decide_eq_true_eq] at hb
+      exact hb.2
+    | none =>
+      have hfin : (Lang d).Finite := by
+        rcases hbound with hb | hb
+        · rw [hm] at hb; cases hb
+        · exact hb
+      obtain ⟨M, hM⟩ := (lang_finite_iff_bounded d h.valid).mp hfin
+      refine ⟨M, ?_⟩
+      intro top rest chars a hst hb
+      simp only [Bool.and_eq_true] at hb
+      obtain ⟨w, hw, hlen⟩ := viable_gives_word h.dict cok hst hb.1
+      have := hM w hw
+      omega
+  refine ⟨potential (d.sortedSymbols key o.reverse) D s0 + 1, ?_⟩
+  rw [hsucc]
+  exact loop_finishes cpos hD _ s0 inv (Nat.lt_succ_self _)
+
+/-- **C14, complete statement**: inside the domain, with a max length or a finite language,
+the complete output of the successor generator is the sorted filter of the window set. -/
+theorem C14_successors_total (d : AV.DFA σ α) (key : α → Int) (input : Option (List α))
+    (h : Dom d key input) (o : SuccOpts) (ho : o.reverse = false)
+    (hbound : o.maxLen.isSome = true ∨ (Lang d).Finite) :
+    ∃ fuel ys, d.successors key input o fuel = (ys, .finished) ∧ ys.Pairwise (lexLt key) ∧
+      ∀ w, w ∈ ys ↔ (w ∈ Window d o ∧ After key o.strict input w) := by
+  obtain ⟨fuel, hfin⟩ := C14_termination d key input h o hbound (fun hr => by rw [ho] at hr; cases hr)
+  obtain ⟨h1, h2⟩ := C14_successors_exhausted d key input h o ho fuel hfin
+  exact ⟨fuel, _, Prod.ext rfl hfin, h1, h2⟩
+
+/-- … and the complete output of the predecessor generator of a finite language is the
+decreasingly sorted filter of the window set. -/
+theorem C14_predecessors_total (d : AV.DFA σ α) (key : α → Int) (input : Option (List α))
+    (h : Dom d key input) (o : SuccOpts) (ho : o.reverse = true) (hfinite : (Lang d).Finite) :
+    ∃ fuel ys, d.successors key input o fuel = (ys, .finished) ∧
+      ys.Pairwise (fun u v => lexLt key v u) ∧
+      ∀ w, w ∈ ys ↔ (w ∈ Window d o ∧ Before key o.strict input w) := by
+  obtain ⟨fuel, hfin⟩ := C14_termination d key input h o (Or.inr hfinite) (fun _ => hfinite)
+  obtain ⟨h1, h2⟩ := C14_predecessors_exhausted d key input h o ho fuel hfinite hfin
+  exact ⟨fuel, _, Prod.ext rfl hfin, h1, h2⟩
+
+/-- The output does not depend on the fuel once the generator is exhausted: more iterations
+change nothing (so "the" output of the generator is well defined). -/
+theorem C14_output_unique (d : AV.DFA σ α) (key : α → Int) (input : Option (List α))
+    (h : Dom d key input) (o : SuccOpts) (ho : o.reverse = false) (f1 f2 : Nat)
+    (h1 : (d.successors key input o f1).2 = .finished)
+    (h2 : (d.successors key input o f2).2 = .finished) :
+    (d.successors key input o f1).1 = (d.successors key input o f2).1 := by
+  obtain ⟨s1, m1⟩ := C14_successors_exhausted d key input h o ho f1 h1
+  obtain ⟨s2, m2⟩ := C14_successors_exhausted d key input h o ho f2 h2
+  have hirr : ∀ a : List α, ¬ lexLt key a a := fun a => lexLt_irrefl key a
+  have htr : ∀ a b c : List α, lexLt key a b → lexLt key b c → lexLt key a c := by
+    intro a b c hab hbc
+    rw [lexLt_eq_preLt] at *
+    exact preLt_trans key hab hbc
+  -- two strictly sorted lists with the same members are equal
+  have key_lemma : ∀ (l1 l2 : List (List α)), l1.Pairwise (lexLt key) → l2.Pairwise (lexLt key) →
+      (∀ w, w ∈ l1 ↔ w ∈ l2) → l1 = l2 := by
+    intro l1
+    induction l1 with
+    | nil =>
+      intro l2 _ _ hm
+      cases l2 with
+      | nil => rfl
+      | cons b t => exact absurd ((hm b).mpr List.mem_cons_self) (by simp)
+    | cons a t ih =>
+      intro l2 p1 p2 hm
+      cases l2 with
+      | nil => exact absurd ((hm a).mp List.mem_cons_self) (by simp)
+      | cons b t2 =>
+        rw [List.pairwise_cons] at p1 p2
+        have hab : a = b := by
+          rcases List.mem_cons.mp ((hm a).mp List.mem_cons_self) with e | e
+          · exact e
+          · rcases List.mem_cons.mp ((hm b).mpr List.mem_cons_self) with e' | e'
+            · exact e'.symm
+            · exact absurd (htr a b a (p1.1 b e') (p2.1 a e)) (hirr a)
+        subst hab
+        congr 1
+        apply ih t2 p1.2 p2.2
+        intro w
+        constructor
+        · intro hw
+          rcases List.mem_cons.mp ((hm w).mp (List.mem_cons_of_mem _ hw)) with e | e
+          · subst e; exact absurd (p1.1 w hw) (hirr w)
+          · exact e
+        · intro hw
+          rcases List.mem_cons.mp ((hm w).mpr (List.mem_cons_of_mem _ hw)) with e | e
+          · subst e; exact absurd (p2.1 w hw) (hirr w)
+          · exact e
+  exact key_lemma _ _ s1 s2 (fun w => by rw [m1, m2])
 
 /-! ## non-vacuity and in-Lean tests on concrete DFAs -/
 
